@@ -49,7 +49,7 @@ var Prop = &engine.Prop{
 		"a refused commit ends the transaction (the fake server forgets it), as MySQL does after a failed COMMIT on a lost connection",
 		"panic(nil) and runtime.Goexit inside a step are not generated (panic(nil) depends on the main module's GODEBUG default); nil step functions and a db that already carries an error are misuse and not generated",
 		"the module's default logger (ulog) is a production-style or a development-style zap logger writing nowhere, chosen per case (always development-style in the prepstmt set-up); failing steps also use MySQL driver errors (1213 deadlock, 1205 lock wait timeout, 1062, 1040, ErrInvalidConn) and runtime panics (nil map write, index out of range, nil dereference)",
-		"kind handles (Transact on a handle that is already a transaction, on a handle whose context is or gets cancelled, steps that finish the transaction themselves) is outside the stated fault space: only 'nil result => the server accepted a commit during the call', 'no accepted begin => no step ran', 'no panic escapes' and (scenario ctx-cancel-fail, where exactly one step fails) 'the result is that step's error' are judged there",
+		"kind handles (Transact on a handle that is already a transaction, on a handle whose context is or gets cancelled, steps that finish the transaction themselves) is outside the stated fault space: only 'nil result => the server accepted a commit during the call', 'no accepted begin => no step ran', 'no panic escapes', (scenario ctx-cancel-fail, where exactly one step fails) 'the result is that step's error' and (scenarios dry-run / step-adds-error, when every step returned nil and neither begin nor commit is refused) 'a commit was accepted' are judged there; a step that records an error on the handle with AddError and returns nil is the last step of its list (gorm calls made on the handle afterwards report the recorded error, so a later step would fail)",
 		"a refused begin is either refused for good or (plans FAIL-ONCE) refused once with a connection-level error (mysql.ErrInvalidConn; driver.ErrBadConn only on the gorm-level pool, because database/sql retries that one itself) while a second attempt would be accepted: either way the begin Transact asked for failed, so no step may run",
 		"begin/commit failure: the statement only promises a non-nil result; whether the result wraps the driver's error is counted (begin_error_identity, commit_error_identity), not judged",
 	},
